@@ -7,6 +7,7 @@ Trace_Core.tla evaluated by TLC on the recorded events.
 usage: python3 -m vf.drv_core <lib> <behaviours.json> <out.ndjson> <workdir> <seed> <class> [backend]
 """
 import json
+import os
 import sys
 
 from . import p11const as K
@@ -213,6 +214,16 @@ class CoreDriver(Harness):
             h = self.real(a[0])
             rv = p.logout(h)
             ev.update(h=h)
+        elif name == "MVanish":
+            # behind the library's back: the token's directory is removed (as softhsm2-util --delete-token would)
+            import glob
+            import shutil
+            t = a[0]
+            for dpath in glob.glob(os.path.join(self.tokdir, "*")):
+                if self.serial_dir.get(t) == os.path.basename(dpath):
+                    shutil.rmtree(dpath, ignore_errors=True)
+            rv = 0
+            ev.update(t=t)
         elif name == "MInitToken":
             t, pin = a
             rv = p.init_token(self.slot[t], self.pin(pin), self.label_of(t))
